@@ -5,15 +5,13 @@ This is "Part 2" of `Model/FrontEnd.lean` (resolver.rs: `resolve_variable`, `dec
 `begin_scope`/`end_scope`, `function`; compiler/mod.rs: `resolve_local`, `resolve_capture`, `variable_get`,
 `declare_variable`/`load_module_variable`, `begin_scope`/`end_scope`, `function`) with ONE change of representation:
 the identity of a declaration (`Id`) is no longer drawn from a run-time counter (`nextId`) but is part of the
-`declare` event and of the AST node that declares.  The two passes visit the declarations of a `for` / `catch` in
-different orders; with a counter their ids would stop lining up, with ids in the AST both passes name the same
-declaration by the same id whatever the order of the visit.
+`declare` event and of the AST node that declares, so that both passes name the same declaration by the same id.
 
 Both passes are folds over one sequence of *scoping events*.  The resolver keeps a flat stack of tables tagged with
 `fun_depth` and decides captures by comparing depths; the compiler keeps one list of locals per function and walks
-the `enclosing` chain.  `AST → events` (two traversal orders: the resolver's and the compiler's) is at the end, followed
-by the decidable envelope `Items.sep` under which the two orders are proved equivalent for the compiler
-(`Lemmas/ContractSep.lean`).
+the `enclosing` chain.  `AST → events` (two traversals: the resolver's and the compiler's) is at the end; the two
+traversals perform the same declarations, brackets and lookups in the same order and differ only in the position of the
+`define` events, which the compiler's lookups ignore (`Lemmas/ContractOrder.lean`).
 
 Ids: nothing in the proofs needs ids to be distinct (both passes find the same table entry, hence the same id).  For
 the model to be *faithful*, user declarations should carry pairwise distinct ids `≥ 1`; the hidden names (`nSelf`,
@@ -237,7 +235,10 @@ def Items.ofList : List Item → Items
   | i :: r => .cons i (Items.ofList r)
 
 mutual
-  /-- resolver.rs: `let_`, `fun`, `lambda`/`function`, `block`/`scope`, `for_`, `catch` -/
+  /-- resolver.rs: `let_`, `fun`, `lambda`/`function`, `block`/`scope`, `for_` (the iterable is resolved before `$iter`
+  and the item are declared), `try_`/`catch` (the class — or the default `Error` — is resolved before the catch variable is
+  declared).  The order of the actions of `for_`/`catch` is tied to the Rust text by the generated table
+  `Gen.scopeOrder` (`C15_scope_order_gen`). -/
   def Item.revs : Item → List Ev
     | .use n => [.use n]
     | .letD n i init => [.declare n i] ++ Items.revs init ++ [.define n]
@@ -246,9 +247,9 @@ mutual
     | .lam ps b => [.beginFun, .declare nUninit 0, .define nUninit] ++
         (ps.flatMap fun p => [.declare p.1 p.2, .define p.1]) ++ Items.revs b ++ [.endFun]
     | .block b => [.beginScope] ++ Items.revs b ++ [.endScope]
-    | .forD x i it b => [.beginScope, .declare nIter 0, .define nIter, .declare x i, .define x] ++ Items.revs it ++
-        [.beginScope] ++ Items.revs b ++ [.endScope, .endScope]
-    | .catchD n i cls b => [.beginScope, .declare n i, .define n, .use cls, .beginScope] ++ Items.revs b ++
+    | .forD x i it b => [.beginScope] ++ Items.revs it ++
+        [.declare nIter 0, .define nIter, .declare x i, .define x, .beginScope] ++ Items.revs b ++ [.endScope, .endScope]
+    | .catchD n i cls b => [.beginScope, .use cls, .declare n i, .define n, .beginScope] ++ Items.revs b ++
         [.endScope, .endScope]
   def Items.revs : Items → List Ev
     | .nil => []
@@ -256,7 +257,7 @@ mutual
 end
 
 mutual
-  /-- compiler/mod.rs: `let_`, `fun`, `function`, `scope`, `for_` (iterable first!), `catch` (class first!) -/
+  /-- compiler/mod.rs: `let_`, `fun`, `function`, `scope`, `for_` (iterable first), `catch` (class first) -/
   def Item.cevs : Item → List Ev
     | .use n => [.use n]
     | .letD n i init => [.declare n i] ++ Items.cevs init ++ [.define n]
@@ -289,51 +290,5 @@ def eraseDefs (es : List Ev) : List Ev :=
     | .define _ => false
     | .hoist _ => false
     | _ => true
-
-/-! ### The envelope: the iterable of a `for` does not read the loop variable, the class of a `catch` is not its
-variable -/
-
-mutual
-  /-- `a` is *read* somewhere inside (a `use a`, or `a` is the class of a `catch`), at any nesting depth.
-  Declarations of `a` do not count: the proof does not need to exclude them. -/
-  def Item.mentions (a : Name) : Item → Bool
-    | .use n => n == a
-    | .letD _ _ init => Items.mentions a init
-    | .funD _ _ _ b => Items.mentions a b
-    | .lam _ b => Items.mentions a b
-    | .block b => Items.mentions a b
-    | .forD _ _ it b => Items.mentions a it || Items.mentions a b
-    | .catchD _ _ cls b => cls == a || Items.mentions a b
-  def Items.mentions (a : Name) : Items → Bool
-    | .nil => false
-    | .cons i r => Item.mentions a i || Items.mentions a r
-end
-
-/-- an expression: a sequence of variable reads and lambdas (whose bodies are unrestricted) — it declares nothing in
-the scope it is evaluated in -/
-def Items.exprLike : Items → Bool
-  | .nil => true
-  | .cons (.use _) r => Items.exprLike r
-  | .cons (.lam _ _) r => Items.exprLike r
-  | .cons _ _ => false
-
-mutual
-  /-- **the envelope** (decidable, recursive over the whole program): for every `for x in ITER { … }`, `ITER` is an
-  expression that reads neither `x` nor the hidden `$iter`; for every `catch n: CLS { … }`, `CLS ≠ n` -/
-  def Item.sep : Item → Bool
-    | .use _ => true
-    | .letD _ _ init => Items.sep init
-    | .funD _ _ _ b => Items.sep b
-    | .lam _ b => Items.sep b
-    | .block b => Items.sep b
-    | .forD x _ it b => Items.exprLike it && !Items.mentions x it && !Items.mentions nIter it && Items.sep it && Items.sep b
-    | .catchD n _ cls b => cls != n && Items.sep b
-  def Items.sep : Items → Bool
-    | .nil => true
-    | .cons i r => Item.sep i && Items.sep r
-end
-
-/-- the envelope of a program -/
-abbrev sep (prog : Items) : Bool := Items.sep prog
 
 end LaytheVerif.Contract
